@@ -5,7 +5,7 @@
    C05 where available and by the hostile-input correspondence on every run. *)
 From Coq Require Import List ZArith Lia.
 Require Import Avro.Model.Base Avro.Model.Prim Avro.Model.Schema Avro.Model.GoType Avro.Model.Time
-               Avro.Model.Spec Avro.Model.Codec Avro.Model.Container.
+               Avro.Model.Spec Avro.Model.Codec Avro.Model.Heap Avro.Model.Container.
 Require Import Avro.Model.Typing.
 Require Import Avro.Proofs.SafeP Avro.Proofs.BuildP Avro.Proofs.TimeP Avro.Proofs.LayoutP Avro.Proofs.TypedP Avro.Proofs.CtypeP Avro.Proofs.ReadSafeP Avro.Proofs.AllocP.
 Import ListNotations.
@@ -95,6 +95,13 @@ Theorem C06_decoded_heap_fresh : forall fuel c dest bs v r,
   cells v <= st c + rate c * len bs.
 Proof. exact read_cells_fresh. Qed.
 Print Assumptions C06_decoded_heap_fresh.
+
+(* what the correspondence check evaluates on every value the implementation
+   returns (Corr/Codec.v, KRead): true for every successful decode of the model *)
+Theorem C06_heap_bound_checked : forall fuel c dest bs v r,
+  c_read fuel c dest bs = Done v r -> heap_bound_ok c dest (len bs - len r) v = true.
+Proof. exact heap_bound_holds. Qed.
+Print Assumptions C06_heap_bound_checked.
 
 (* ... and with zero-width items the bound fails: 1000 items from 3 bytes *)
 Theorem C06_zero_width_heap_refuted :
